@@ -213,9 +213,31 @@ func (p *ProofD) correctResponseSizes(pk *gabikeys.PublicKey) bool {
 	return p.EResponse.Cmp(minimum) >= 0 && p.EResponse.Cmp(maximum) <= 0
 }
 
+// consistentIndices checks that every attribute index occurs at most once in the proof: an
+// attribute is either disclosed or hidden (having a response), never both, and the secret key
+// (attribute 0) is always hidden. Without this a holder could split an attribute value into a
+// "disclosed" part and a hidden remainder, making the proof report a value that was never signed.
+func (p *ProofD) consistentIndices() bool {
+	if _, disclosed := p.ADisclosed[0]; disclosed {
+		return false
+	}
+	if _, hidden := p.AResponses[0]; !hidden {
+		return false
+	}
+	for i := range p.ADisclosed {
+		if _, hidden := p.AResponses[i]; hidden {
+			return false
+		}
+	}
+	return true
+}
+
 // reconstructZ reconstructs Z from the information in the proof and the
 // provided public key.
 func (p *ProofD) reconstructZ(pk *gabikeys.PublicKey) (*big.Int, error) {
+	if !p.consistentIndices() {
+		return nil, errors.New("attribute index both disclosed and hidden, or secret key not hidden")
+	}
 	// known = Z / ( prod_{disclosed} R_i^{a_i} * A^{2^{l_e - 1}} )
 	numerator := new(big.Int).Lsh(big.NewInt(1), pk.Params.Le-1)
 	numerator.Exp(p.A, numerator, pk.N)
@@ -290,6 +312,7 @@ func (p *ProofD) VerifyWithChallenge(pk *gabikeys.PublicKey, reconstructedChalle
 	}
 	// Range proofs were already validated during challenge reconstruction
 	return notrevoked &&
+		p.consistentIndices() &&
 		p.correctResponseSizes(pk) &&
 		p.C.Cmp(reconstructedChallenge) == 0
 }
